@@ -33,11 +33,12 @@ func encoderConfigs(r *core.Run) []string {
 func c02(r *core.Run) {
 	r.Expl = "C02 (cgo / native builds interchangeable): for every build configuration (quick: cgo and CGO_ENABLED=0; thorough: also goprobe_noliblz4, goprobe_nolibzstd, CI tags) and every Encoder implementation, decides the sibling contract all implementations must share for their output to be the library's frame and nothing else: the caller's scratch buffer contributes no pre-existing bytes (append-style APIs get a zero-length destination; otherwise exactly the library-reported prefix of the buffer is written), the buffer is resliced only under a capacity guard, exactly one dst.Write on success whose count is what Compress reports, Decompress compares the count read from src with len(in) before decoding, returns the decoded length, and never takes the address of element 0 of a possibly empty parameter. NOT decided: that liblz4/libzstd and pierrec/klauspost produce mutually readable frames (third-party format behaviour), nor any actual cross-build read-back."
 	r.Floor = 26
-	r.Rules = append(r.Rules, "encoder-contract: per-path event automaton over Compress/Decompress of every implementation in every build configuration")
+	r.Rules = append(r.Rules, "encoder-contract: per-path event automaton over Compress/Decompress of every implementation in every build configuration", "codec-options: frozen table of third-party codec options that do not restrict which frames are produced / accepted")
 	for _, cfg := range encoderConfigs(r) {
 		p := r.ProgFor(cfg, "./pkg/goDB/encoder/...")
 		for _, rel := range encoderImpls {
 			ruleEncoderContract(r, p, rel)
+			ruleCodecOptions(r, p, rel)
 		}
 	}
 }
@@ -747,4 +748,57 @@ func ruleSourcePointerNeverNil(r *core.Run, p *core.Prog, f *core.Fn, pData type
 	}
 	r.Check(rule, short+".Compress:source-pointer-never-nil", p.Rel(ccall.Pos()), why == "",
 		"the source pointer handed to LZ4_compress_HC must be a valid address on every path, also for empty input (at compression levels >= 10 the library dereferences it: SIGSEGV): "+why)
+}
+
+// codecOptionTable: options of the third-party pure-Go codecs, classified by reading their documentation. "neutral" options
+// change speed / memory / checksum handling but not which frames the encoder may emit or the decoder accepts; "restricting"
+// options make the decoder reject (or the encoder emit) frames the other build's library handles differently. Both builds must
+// read each other's blocks whatever their size, so a restricting option breaks interchangeability for some block.
+var codecOptionTable = map[string]string{
+	"github.com/klauspost/compress/zstd.WithEncoderLevel":       "neutral",
+	"github.com/klauspost/compress/zstd.WithEncoderCRC":         "neutral",
+	"github.com/klauspost/compress/zstd.WithEncoderConcurrency": "neutral",
+	"github.com/klauspost/compress/zstd.WithLowerEncoderMem":    "neutral",
+	"github.com/klauspost/compress/zstd.WithZeroFrames":         "neutral",
+	"github.com/klauspost/compress/zstd.IgnoreChecksum":         "neutral",
+	"github.com/klauspost/compress/zstd.WithDecoderConcurrency": "neutral",
+	"github.com/klauspost/compress/zstd.WithDecoderLowmem":      "neutral",
+	"github.com/klauspost/compress/zstd.WithDecoderMaxWindow":   "restricting: frames whose window exceeds the bound are rejected; libzstd writes a window as large as the block",
+	"github.com/klauspost/compress/zstd.WithDecoderMaxMemory":   "restricting: frames that need more memory than the bound are rejected",
+	"github.com/klauspost/compress/zstd.WithDecodeAllCapLimit":  "restricting: DecodeAll refuses to grow the destination",
+	"github.com/klauspost/compress/zstd.WithDecoderDicts":       "restricting: frames then depend on a dictionary the other build does not have",
+	"github.com/klauspost/compress/zstd.WithEncoderDict":        "restricting: frames then depend on a dictionary the other build does not have",
+	"github.com/klauspost/compress/zstd.WithWindowSize":         "restricting: fixes the window the other build's decoder must accept",
+	"github.com/klauspost/compress/zstd.WithSingleSegment":      "restricting: changes the frame header the other build must parse",
+	"github.com/klauspost/compress/zstd.WithEncoderPadding":     "restricting: pads frames with skippable frames",
+}
+
+// ruleCodecOptions: every option passed to a third-party codec constructor is classified neutral in codecOptionTable.
+func ruleCodecOptions(r *core.Run, p *core.Prog, rel string) {
+	const rule = "codec-options"
+	short := rel[strings.LastIndex(rel, "/")+1:]
+	for _, f := range p.Funcs(rel) {
+		info := f.Info()
+		for _, c := range core.Calls(f.Decl.Body, true) {
+			cn := core.CallName(info, c)
+			if !strings.HasPrefix(cn, "github.com/klauspost/compress/zstd.New") {
+				continue
+			}
+			for _, a := range c.Args {
+				oc, ok := ast.Unparen(a).(*ast.CallExpr)
+				if !ok {
+					continue
+				}
+				on := core.CallName(info, oc)
+				class, known := codecOptionTable[on]
+				key := fmt.Sprintf("%s.%s:%s(%s)", short, f.Name, cn[strings.LastIndex(cn, ".")+1:], on[strings.LastIndex(on, ".")+1:])
+				switch {
+				case !known:
+					r.Undecided(rule, key, p.Rel(oc.Pos()), "codec option "+on+" is not classified: it must be shown not to restrict the frames the other build writes / reads before it is used")
+				default:
+					r.Check(rule, key, p.Rel(oc.Pos()), class == "neutral", on+" — "+class)
+				}
+			}
+		}
+	}
 }
